@@ -551,8 +551,10 @@ func isFreshErrorDepth(v ssa.Value, depth int) bool {
 	switch x := v.(type) {
 	case *ssa.Call:
 		switch calleeName(x) {
-		case "fmt.Errorf", "errors.New", "errors.Join":
+		case "fmt.Errorf", "errors.New":
 			return true
+		case "errors.Join":
+			return joinedSome(x, func(v ssa.Value) bool { return isFreshErrorDepth(v, depth+1) })
 		}
 		// a module helper / local closure every return of which makes an error: missing := func(name string) error { return fmt.Errorf(...) }
 		if depth < 3 && gFacts != nil {
